@@ -70,6 +70,9 @@ pub struct State {
     /// scheduling point (blocked on / spinning at a primitive the hooks do not wrap)
     foreign: Vec<bool>,
     pub foreign_blocks: u64,
+    /// has the thread that was handed the baton woken up and taken it? (a thread that is
+    /// merely slow to wake must not be mistaken for one that blocks outside the hooks)
+    acked: bool,
 }
 
 pub struct Sched {
@@ -104,6 +107,7 @@ impl Sched {
                 progress: 0,
                 foreign: vec![false; n],
                 foreign_blocks: 0,
+                acked: true,
             }),
             cv: Condvar::new(),
         })
@@ -183,10 +187,13 @@ impl Sched {
             s.status[me] = Status::Parked;
             s.status[chosen] = Status::Running;
             s.current = chosen;
+            s.acked = false;
             self.cv.notify_all();
             while s.current != me {
                 s = self.cv.wait(s).unwrap_or_else(|e| e.into_inner());
             }
+            s.acked = true;
+            s.progress += 1;
         }
         s.status[me] = Status::Running;
         // the want recorded at the point is now granted
@@ -210,6 +217,7 @@ impl Sched {
             s.foreign[me] = false;
             s.status[me] = Status::Running;
             s.current = me;
+            s.acked = true;
         }
         if s.current != me {
             // this thread had been given up as blocked on something the hooks do not see and has
@@ -227,6 +235,8 @@ impl Sched {
                 }
                 s = self.cv.wait(s).unwrap_or_else(|e| e.into_inner());
             }
+            s.acked = true;
+            s.progress += 1;
             s.status[me] = Status::Running;
             if let Want::Lock(id) = s.want[me] {
                 s.held.insert(id, me);
@@ -273,6 +283,8 @@ impl Sched {
                     }
                     s = self.cv.wait(s).unwrap_or_else(|e| e.into_inner());
                 }
+                s.acked = true;
+                s.progress += 1;
                 s.status[me] = Status::Running;
                 if let Want::Lock(id) = s.want[me] {
                     s.held.insert(id, me);
@@ -299,6 +311,8 @@ impl Sched {
         while s.current != me {
             s = self.cv.wait(s).unwrap_or_else(|e| e.into_inner());
         }
+        s.acked = true;
+        s.progress += 1;
         s.status[me] = Status::Running;
     }
 
@@ -323,6 +337,7 @@ impl Sched {
                 if let Some(chosen) = Self::decide(&mut s, usize::MAX, "thread-end", String::new()) {
                     s.status[chosen] = Status::Running;
                     s.current = chosen;
+            s.acked = false;
                 }
             }
             self.cv.notify_all();
@@ -332,6 +347,7 @@ impl Sched {
             Some(chosen) => {
                 s.status[chosen] = Status::Running;
                 s.current = chosen;
+            s.acked = false;
                 self.cv.notify_all();
             }
             None => {
@@ -351,6 +367,10 @@ impl Sched {
         if me >= s.n || s.status[me] == Status::Finished || s.deadlock.is_some() {
             return false;
         }
+        if !s.acked {
+            // it has been handed the baton but has not woken up yet: slow, not blocked
+            return true;
+        }
         s.foreign[me] = true;
         s.foreign_blocks += 1;
         s.status[me] = Status::Parked;
@@ -358,6 +378,7 @@ impl Sched {
             Some(chosen) => {
                 s.status[chosen] = Status::Running;
                 s.current = chosen;
+            s.acked = false;
                 s.progress += 1;
                 self.cv.notify_all();
                 true
@@ -379,6 +400,7 @@ impl Sched {
         if let Some(chosen) = Self::decide(&mut s, usize::MAX, "start", String::new()) {
             s.status[chosen] = Status::Running;
             s.current = chosen;
+            s.acked = false;
         }
         self.cv.notify_all();
     }
@@ -470,6 +492,7 @@ impl Sched {
                     if let Some(chosen) = Self::decide(&mut s, usize::MAX, "unlock-outside-baton", String::new()) {
                         s.status[chosen] = Status::Running;
                         s.current = chosen;
+            s.acked = false;
                         self.cv.notify_all();
                     }
                 }
